@@ -66,6 +66,20 @@ func init() {
 		}
 		e["f0"], e["fu"], e["str"], e["mt"], e["urn"] = S(f0), S(fu), S(id.String()), S(mt), S(id.URN())
 		e["vs"], e["vu"] = S(fmt.Sprintf("%s", id)), S(fmt.Sprintf("%u", id))
+		for i := range mt {
+			mt[i] = '#'
+		}
+		mt2, err2 := id.MarshalText()
+		if err2 != nil {
+			mt2 = []byte("!error")
+		}
+		e["mt2"], e["str2"] = S(mt2), S(id.String())
+		held, _ := id.MarshalText()
+		heldF, _ := uu.DefaultFormatter(nil, id, 0)
+		oth := uu.ID{Higher: ^id.Higher, Lower: id.Lower + 1}
+		_, _ = oth.MarshalText()
+		_, _ = uu.DefaultFormatter(nil, oth, uu.FormatURN)
+		e["held"], e["heldf"] = S(held), S(heldF)
 		e["version"], e["variant"] = id.Version(), id.Variant()
 		lower := string(f0)
 		upper := strings.ToUpper(lower)
@@ -89,7 +103,7 @@ func init() {
 			if str(e["T"]) == "s" {
 				id, err = uu.DefaultParser(string(in), rule)
 			} else {
-				id, err = uu.DefaultParser(in, rule)
+				id, err = uu.DefaultParser(reused(in), rule)
 			}
 		})
 		e["panic"] = p
